@@ -19,6 +19,8 @@ func init() {
 		ruleDef{"C10.R5", c10r5},
 		ruleDef{"C10.R6", c10r6},
 		ruleDef{"C10.R7", c10r7},
+		// a pooled result channel handed back while a frame is still in flight ends in the serve loop's "unbuffered done channel" panic on an unrelated connection
+		ruleDef{"C08.R6", c08r6},
 	)
 }
 
